@@ -62,3 +62,59 @@ def slot_writers(F, owner, field):
                 if not (e[0] == 'aggr' and e[2].endswith('Option::None')):
                     out.setdefault(name, []).append((bi, ln))
     return out
+
+
+def loss_scan(F, fn, owner, field, is_ack_call):
+    """no-loss discipline of an owed-reply slot in its drain function.
+
+    State (value, owed): value as in slot_scan; owed = the path observed the slot full (Some edge of a
+    test on the slot, directly / through clone() / through take()) and has not yet passed the call
+    that buffers the reply.  Returns (exits [(ret block, (value, owed), ret class, parent state)], parent)."""
+    sws = core.all_switches(F, fn)
+
+    def is_slot_place(pl):
+        fs = core.place_fields(pl)
+        return bool(fs) and fs[-1] == (owner, field)
+
+    def is_slot_expr(e):
+        return last_field(strip(e)) == (owner, field) and strip(e)[0] == 'field'
+
+    def slot_test(sw):
+        if sw is None or sw.kind != 'variant':
+            return False
+        e = sw.subject
+        if is_slot_expr(e):
+            return True
+        e = strip(e)
+        return e[0] == 'call' and e[1] in ('std::option::Option::take', '<std::option::Option as std::clone::Clone>::clone') and e[2] and is_slot_expr(e[2][0])
+
+    def on_stmt(us, bi, si, pl, rv):
+        if is_slot_place(pl):
+            e = strip(fn.expr_of_rvalue(rv))
+            if e[0] == 'aggr' and e[2].endswith('Option::None'):
+                return ('N', us[1])
+            if e[0] == 'aggr' and e[2].endswith('Option::Some'):
+                return ('S', us[1])
+            return ('?', us[1])
+        return us
+
+    def on_term(us, bi, t):
+        if t['k'] == 'call':
+            if t['fn'] == 'std::option::Option::take' and t['a'] and is_slot_expr(fn.expr_of_op(t['a'][0])):
+                return ('N', us[1])
+            if is_ack_call(fn, bi, t):
+                return (us[0], False)
+        return us
+
+    def on_edge(us, bi, s):
+        sw = sws.get(bi)
+        if slot_test(sw):
+            lab = sw.labels.get(s)
+            if lab == frozenset(['Some']):
+                return (us[0] if not is_slot_expr(sw.subject) else 'S', True)
+            if lab == frozenset(['None']) and is_slot_expr(sw.subject):
+                return ('N', us[1])
+        return us
+
+    exits, ins, parent = core.scan(fn, ('?', False), on_stmt, on_term, on_edge)
+    return exits, parent
